@@ -52,3 +52,48 @@ Theorem C13_nested_carrier_hands_over_frames : forall (A B : Type) (enc : dframe
   p_rq (n_out n) <> [] -> exists n', nstep enc dec cmaxI cmaxO n NCarrierRecv = Some n'.
 Proof. exact nested_carrier_recv_enabled. Qed.
 Print Assumptions C13_nested_carrier_hands_over_frames.
+
+(* ---- one RPC end to end (Rpc.v): both endpoints' stream state machines, the goroutines they spawn,
+   both receive loops and both carrier directions composed; every interleaving, runs of any length ---- *)
+From GT Require Import Rpc RpcProofs RpcSystem.
+(* what the tunnel client emits on a stream is accepted by the automaton of a conforming peer ... *)
+Theorem C13_rpc_client_frames_conform : forall strict ls s, rrun strict r_init ls = Some s -> gc_run (h_c s) <> GcBad.
+Proof. exact rpc_client_frames_conform. Qed.
+Print Assumptions C13_rpc_client_frames_conform.
+(* ... which means: new_stream first and only once, *)
+Theorem C13_new_stream_first : forall h, gc_run h <> GcBad -> h = [] \/ exists r, h = FNew :: r /\ ~ In FNew r.
+Proof. exact conforming_new_stream_first. Qed.
+Print Assumptions C13_new_stream_first.
+(* half-close at most once and no request data after it, *)
+Theorem C13_no_request_data_after_half_close : forall h pre post,
+  gc_run h <> GcBad -> h = pre ++ FHalf :: post -> ~ In FReq post /\ ~ In FHalf post.
+Proof. exact conforming_no_data_after_half_close. Qed.
+Print Assumptions C13_no_request_data_after_half_close.
+(* cancel at most once *)
+Theorem C13_cancel_at_most_once : forall h pre post, gc_run h <> GcBad -> h = pre ++ FCancel :: post -> ~ In FCancel post.
+Proof. exact conforming_cancel_once. Qed.
+Print Assumptions C13_cancel_at_most_once.
+(* what the tunnel server emits on a stream: headers at most once and before any message, nothing but a
+   late window update after the close, at most one close *)
+Theorem C13_rpc_server_frames_conform : forall strict ls s, rrun strict r_init ls = Some s -> gs_run (h_s s) <> GsBad.
+Proof. exact rpc_server_frames_conform. Qed.
+Print Assumptions C13_rpc_server_frames_conform.
+Theorem C13_rpc_at_most_one_close : forall strict ls s, rrun strict r_init ls = Some s -> count_close (h_s s) <= 1.
+Proof. exact rpc_at_most_one_close. Qed.
+Print Assumptions C13_rpc_at_most_one_close.
+(* every stream a server accepts or rejects receives exactly one close frame: once the handler has
+   returned (or the stream was refused) and the goroutines spawned for it have run *)
+Theorem C13_rpc_exactly_one_close : forall strict ls s, rrun strict r_init ls = Some s ->
+  (v_h (r_v s) = HRet \/ v_h (r_v s) = HRej) -> s_quiet (r_v s) = true -> count_close (h_s s) = 1.
+Proof. exact rpc_exactly_one_close_when_settled. Qed.
+Print Assumptions C13_rpc_exactly_one_close.
+(* ... which is the last frame of a stream the handler ended (reads confined to the handler's goroutine) *)
+Theorem C13_rpc_close_is_last : forall ls s pre post,
+  rrun true r_init ls = Some s -> v_fin (r_v s) = Some SHandler -> h_s s = pre ++ FClose :: post -> post = [].
+Proof. exact rpc_close_is_last_when_handler_ended. Qed.
+Print Assumptions C13_rpc_close_is_last.
+(* without that confinement it is not: the premise is needed *)
+Theorem C13_rpc_close_is_last_needs_confinement :
+  exists s, rrun false r_init wu_after_close_run = Some s /\ v_fin (r_v s) = Some SHandler /\ h_s s = [FHdr; FClose; FSwu].
+Proof. exact rpc_close_is_last_needs_confinement. Qed.
+Print Assumptions C13_rpc_close_is_last_needs_confinement.
